@@ -742,6 +742,8 @@ fn factor(eval_state: &mut EvalState) -> Result<ExprValue> {
 }
 
 fn primary(eval_state: &mut EvalState) -> Result<ExprValue> {
+    #[cfg(feature = "verif-hooks")]
+    let _verif_depth = crate::verif::ExprDepthGuard::enter();
     match eval_state.next() {
         Some(Token::Number(x)) => Ok(ExprValue::Number(x)),
         Some(Token::String(s)) => Ok(ExprValue::String(s)),
@@ -860,6 +862,8 @@ fn eval_expr(value: &str, context: &impl ContextView) -> Result<String> {
 
 /// Evaluate an expression.
 fn eval_str(value: &str, context: &impl ContextView) -> Result<String> {
+    #[cfg(feature = "verif-hooks")]
+    crate::verif::expr_eval();
     tokenize(value)
         .and_then(|tokens| evaluate(tokens, context))
         .map(|v| v.to_string())
